@@ -28,6 +28,10 @@ FUNCS: List[Tuple[str, str, str]] = [
     ("load_latest_snapshot", "clematis/engine/snapshot.py", "load_latest_snapshot"),
     ("emit_trace", "clematis/engine/stages/t3/trace.py", "emit_trace"),
     ("log_t3_reflection", "clematis/engine/orchestrator/logging.py", "log_t3_reflection"),
+    # store hooks the snapshot writer / boot loader touch (not in C20's own list; C04's "errors inside the store
+    # never abort the turn" — kept in the table because the turn-completion monitor exercises them)
+    ("export_store", "clematis/engine/snapshot.py", "_export_store_for_snapshot"),
+    ("import_store", "clematis/engine/snapshot.py", "_import_store_from_snapshot"),
 ]
 
 # callee terminal names of interest -> Lean constructor
@@ -66,6 +70,9 @@ CALLEES: Dict[str, str] = {
     "apply_delta": "apply_delta",
     "_import_store_from_snapshot": "import_store_from_snapshot",
     "_sanitize_gel_for_load": "sanitize_gel_for_load",
+    "exp": "store_export_state",      # `exp = getattr(store, "export_state")`; `exp()`
+    "imp": "store_import_state",      # `imp = getattr(store, "import_state")`; `imp(...)`
+    "_export_store_for_snapshot": "export_store_for_snapshot",
 }
 
 
